@@ -4,9 +4,6 @@ import (
 	"simlal/sim/actors"
 	"time"
 
-	"bytes"
-	"encoding/base64"
-	"encoding/hex"
 	"encoding/json"
 	"fmt"
 	"os"
@@ -343,7 +340,7 @@ func CheckC16(k *sim.Kernel, rr *RelayRun, hls *HlsTracker) {
 		// incarnations that had ended (and whose teardown had completed) before the consumer even asked
 		dead := map[int]bool{}
 		for _, p := range accepted[c.Plan.Stream] {
-			if p.Actor.ClosedStep >= 0 && p.Actor.ClosedStep < joinSent && p.Actor.Conn.Idle2() {
+			if p.Actor.ClosedStep >= 0 && p.Actor.ClosedStep < joinSent && p.Actor.Conn.Idle2() && p.Actor.Conn.LastUnlockStep() < joinSent {
 				dead[p.Plan.Inc] = true
 			}
 		}
@@ -355,51 +352,7 @@ func CheckC16(k *sim.Kernel, rr *RelayRun, hls *HlsTracker) {
 		}
 	}
 	// 5b. the same for what an RTSP player is told in its DESCRIBE answer: the SDP must not be the predecessor's
-	for ci, c := range rr.Cons {
-		if c.Rtsp == nil || c.Rtsp.SdpRecv == "" || c.Rtsp.DescribeStep <= 0 {
-			continue
-		}
-		var dead, alive []*PubState
-		for _, p := range accepted[c.Plan.Stream] {
-			if p.Actor.ClosedStep >= 0 && p.Actor.ClosedStep < c.Rtsp.DescribeStep && p.Actor.Conn.Idle2() {
-				dead = append(dead, p)
-			} else {
-				alive = append(alive, p)
-			}
-		}
-		carries := func(ps []*PubState, kind media.Kind, b []byte) *PubState {
-			for _, p := range ps {
-				for i := range p.Units {
-					if p.Units[i].Kind == kind && bytes.Contains(p.Units[i].Msg.Payload, b) {
-						return p
-					}
-				}
-			}
-			return nil
-		}
-		for _, t := range actors.ParseSdpTracks(c.Rtsp.SdpRecv) {
-			var blob []byte
-			kind := media.KVideoSeq
-			switch t.Enc {
-			case "H264":
-				if parts := strings.Split(t.Fmtp["sprop-parameter-sets"], ","); len(parts) == 2 {
-					blob, _ = base64.StdEncoding.DecodeString(parts[1])
-				}
-			case "H265":
-				blob, _ = base64.StdEncoding.DecodeString(t.Fmtp["sprop-pps"])
-			case "MPEG4-GENERIC":
-				kind = media.KAudioSeq
-				blob, _ = hex.DecodeString(t.Fmtp["config"])
-			}
-			if len(blob) == 0 {
-				continue
-			}
-			if d := carries(dead, kind, blob); d != nil && carries(alive, kind, blob) == nil {
-				k.Violate("C16.stale-sdp", "cons%d(%s) sent DESCRIBE after publisher incarnation %d had left, yet the SDP it got describes that publisher's %s parameters (%x)", ci, c.Plan.Proto, d.Plan.Inc, t.Enc, blob)
-			}
-			k.Probe("c16_rtsp_sdp_checked")
-		}
-	}
+	checkStaleSdp(k, rr, accepted, "C16.stale-sdp")
 	// 6. everything is gone at the end
 	if rr.Plan.Dispose {
 		return
